@@ -17,6 +17,16 @@ Clauses
                                              every attribute read has the same Python type and value as in that build
   unchanged-by-mutation-of-another           a mutation of one metamodel changed the snapshot of another
   unchanged-by-later-input / unchanged-by-later-build
+
+Rejected inputs (item histories-with-rejected-input).  "Each contains exactly the input ACCEPTED up to its build": an
+input() call that raises accepted nothing.  A fourth event ['X', kind, pos] feeds the loader a text that the file
+format does not allow (REJECTED_KINDS: a statement with a missing parenthesis, a character outside the alphabet, a
+cardinality other than 1 / 1C / M / MC, a text that ends inside a statement, an unterminated string, a missing keyword);
+the text is made of well-formed statements -- a class no description knows with rows of it, and all statements of the
+next input the loader has not accepted yet (the last one when both are accepted) -- with the malformed statement at
+position pos among them (0 = first statement ... 4 = last).  The call must raise; the expected view and the fresh
+loader of every later build are those of the accepted inputs alone, and
+  unchanged-by-rejected-input                the rejected call changed the snapshot of an earlier build
 """
 import itertools
 
@@ -205,6 +215,31 @@ SCENARIOS = ('rows-cut-simple', 'schema-late', 'rows-cut-reflexive', 'rows-cut-a
 EMPTY = dict(classes=[], assocs=[], ids=[], rows=[], links=[])
 
 
+# --------------------------------------------------------------------------------------------------- rejected inputs
+
+GHOST = 'ZGhost'        # a class of no description
+REJECTED_KINDS = {
+    'missing-parenthesis': 'INSERT INTO ZGhost VALUES (3, \'c\';',
+    'illegal-character': 'INSERT INTO ZGhost VALUES (3, \'c\') ?;',
+    'illegal-cardinality': 'CREATE ROP REF_ID R99 FROM X ZGhost (Id) TO 1 ZGhost (Id);',
+    'ends-inside-statement': 'CREATE TABLE ZOther (Id INTEGER',
+    'unterminated-string': "INSERT INTO ZGhost VALUES (3, 'c);",
+    'missing-keyword': 'INSERT ZGhost VALUES (3, \'c\');',
+}
+REJECTED_ORDER = ('missing-parenthesis', 'illegal-character', 'illegal-cardinality', 'ends-inside-statement', 'unterminated-string',
+                  'missing-keyword')
+REJECTED_POSITIONS = 5
+
+
+def rejected_text(kind, pos, next_text):
+    """Well-formed statements with one malformed statement as the pos-th part."""
+    parts = ['CREATE TABLE ZGhost (Id INTEGER, Name STRING);', "INSERT INTO ZGhost VALUES (1, 'a');", next_text,
+             "INSERT INTO ZGhost VALUES (2, 'b');"]
+    pos = pos % REJECTED_POSITIONS
+    parts.insert(pos, REJECTED_KINDS[kind])
+    return '\n'.join(parts)
+
+
 # --------------------------------------------------------------------------------------------------- mutations
 
 def _first_plain_attr(mc, avoid_keys=True):
@@ -349,6 +384,9 @@ def fresh_build(name, k, texts):
     return _FRESH[(name, k)]
 
 
+NOT_REJECTED = 'note:malformed-text-was-accepted'      # not a clause: reported through ctx.note, never as a violation
+
+
 def run_history(name, events):
     """[(clause, observed, required)]"""
     import xtuml
@@ -392,6 +430,17 @@ def run_history(name, events):
                                 dict(event=ei, inputs=fed, typed_values=dict((k, walk.get(k)) for k in kinds)),
                                 dict(typed_values=dict((k, ref_walk.get(k)) for k in kinds))))
             why = 'unchanged-by-later-build'
+        elif ev[0] == 'X':
+            text = rejected_text(ev[1], ev[2], texts[min(fed, 1)])
+            try:
+                loader.input(text)
+            except Exception:
+                pass
+            else:
+                # the text was accepted: what it describes is outside this oracle -- the history ends here
+                out.append((NOT_REJECTED, dict(event=ei, event_kind=ev), None))
+                break
+            why = 'unchanged-by-rejected-input'
         else:
             _, kind, j = ev
             target = j % len(built) if built else None
@@ -475,6 +524,63 @@ def histories_item(ctx):
         ctx.exhausted = True
 
 
+def rejected_skeletons():
+    """All arrangements of I I X X B B B M in which the M comes after some B (maximal histories with two rejected inputs)."""
+    seen = []
+    for p in sorted(set(itertools.permutations('IIXXBBBM'))):
+        if p.index('M') > p.index('B'):
+            seen.append(p)
+    return seen
+
+
+def rejected_histories(quick):
+    variants = [(k, pos) for pos in range(REJECTED_POSITIONS) for k in REJECTED_ORDER]          # 30
+    pairs = list(itertools.product(range(len(variants)), repeat=2))                               # 900
+    step = 225 if quick else 15
+    n = 0
+    for si, s in enumerate(rejected_skeletons()):
+        for pi, pr in enumerate(pairs[(si * 7) % step::step]):
+            n += 1
+            events, xi = [], 0
+            for e in s:
+                if e == 'M':
+                    events.append(['M', MUTATIONS[(n + si) % len(MUTATIONS)], n % 3])
+                elif e == 'X':
+                    k, pos = variants[pr[xi]]
+                    events.append(['X', k, pos])
+                    xi += 1
+                else:
+                    events.append(e)
+            yield (SCENARIOS[n % len(SCENARIOS)], events)
+
+
+@item('histories-with-rejected-input',
+      stands_in_for=['xtuml.load.ModelLoader.input', 'xtuml.load.ModelLoader.build_metamodel', 'xtuml.load.ModelLoader.populate'],
+      shards=6, weight=1,
+      bound='all arrangements of 2 accepted inputs, 2 rejected inputs, 3 builds, 1 mutation on one loader (mutation only after a '
+            'build; all shorter histories are prefixes, clauses evaluated after every event); a rejected input is a text of '
+            'well-formed statements (an unknown class with rows, all statements of the next input not accepted yet) with one '
+            'malformed statement -- 6 kinds: missing parenthesis, illegal character, illegal cardinality, text ends inside a '
+            'statement, unterminated string, missing keyword -- at one of 5 positions (first .. last statement); pairs of '
+            '(kind, position) rotate (quick: 4 of the 900 per arrangement, thorough: 60); mutation kind, mutated metamodel and '
+            'the 14 input scenarios rotate')
+def rejected_histories_item(ctx):
+    for i, (name, events) in enumerate(rejected_histories(ctx.quick)):
+        if i % ctx.nshards != ctx.shard:
+            continue
+        if ctx.expired():
+            ctx.exhausted = False
+            break
+        ctx.case(key=(name, events), nontrivial=True)
+        for clause, observed, required in run_history(name, events):
+            if clause == NOT_REJECTED:
+                ctx.note('%s: input() accepted a malformed text %r; the history was cut there' % (name, observed))
+                continue
+            ctx.check(False, clause=clause, input=dict(scenario=name, events=events), observed=observed, required=required)
+    else:
+        ctx.exhausted = True
+
+
 @item('scenario-sanity', stands_in_for=[], shards=1, weight=0,
       bound='each of the 14 scenarios: fresh loader, build after 0, 1, 2 inputs equals the description (guards the oracle)')
 def scenario_sanity(ctx):
@@ -487,4 +593,5 @@ def scenario_sanity(ctx):
 
 
 def replay(item_name, input):
-    return [dict(clause=c, observed=o, required=r) for c, o, r in run_history(input['scenario'], input['events'])]
+    return [dict(clause=c, observed=o, required=r) for c, o, r in run_history(input['scenario'], input['events'])
+            if c != NOT_REJECTED]
